@@ -677,7 +677,7 @@ def unit_numbers(doc, secnumdepth=2):
 
 TITLE_SFX = ["", "", "", " Intro", " a b c d", ": x/y", " (two) parts?", " what, now", " A.B",
              " Intro"]
-LABEL_PREFIX = ["s:", "s-", "s.", "sec", "L"]
+LABEL_PREFIX = ["s:", "s-", "s.", "sec", "L", "SEC", "Sec", "l"]      # some labels differ in letter case only
 MIXED_SORT_KEYS = ["apple", "Apple", "avocado", "Avocado", "banana", "Berry", "beta", "1one", "2two", "-dash",
                    "zeta", "Zoo"]
 COLLIDING_LABELS = ["index", "top", "front", "toc", "main", "job", "sect0001", "sect0002", "s1", "s2", "1", "2"]
@@ -732,7 +732,9 @@ def doc_strategy(leaf=None, title_leaf=None, max_units=8, max_blocks=3, classes=
         if k == "par":
             items = draw(st.lists(inline(), min_size=1, max_size=4))
             if not any(it["t"] in ("w", "b", "em", "tt", "verb") for it in items):
-                items.insert(0, {"t": "w", "leaf": draw(leaf())})
+                # (index entries may form a paragraph by themselves, e.g. right after a heading)
+                if not (all(it["t"] == "idx" for it in items) and draw(st.booleans())):
+                    items.insert(0, {"t": "w", "leaf": draw(leaf())})
             return {"k": "par", "items": items}
         if k == "list":
             env = draw(st.sampled_from(["itemize", "enumerate", "description"]))
